@@ -41,6 +41,15 @@ func (g *Gen) watchMod(k string, tk map[mType][]string, i int) [][]string {
 		{{"GETDEL", k}},
 		{{"LMOVE", k, other, "LEFT", "RIGHT"}},
 		{{"LMOVE", other, k, "LEFT", "RIGHT"}},
+		{{"LMOVE", other, k, "RIGHT", "LEFT"}},
+		// (a source list of its own, so that the push onto k really happens)
+		{{"RPUSH", "auxl", "x9"}, {"RPOPLPUSH", "auxl", k}},
+		{{"RPUSH", "auxl", "x9"}, {"LMOVE", "auxl", k, "LEFT", "LEFT"}},
+		{{"RPUSH", "auxl", "x9"}, {"LMOVE", "auxl", k, "RIGHT", "RIGHT"}},
+		{{"HINCRBYFLOAT", k, "fnew2", "1.5"}},
+		{{"HINCRBYFLOAT", k, "f0", "0.5"}},
+		{{"SETBIT", k, "3", "1"}},
+		{{"BITFIELD", k, "SET", "u8", "0", "200"}},
 		{{"SUNIONSTORE", k, other}},
 		{{"FLUSHDB"}},
 		{{"FLUSHALL"}},
